@@ -107,6 +107,7 @@ def run(ctx):
         "kernel path resolution of a lexically confined path without symlinks stays inside the folder",
     ]
     ok = ctx.prove()
+    sites_check(ctx)
     from radicale import pathutils
     import posixpath
 
@@ -221,6 +222,145 @@ def run(ctx):
 
     # ------------------------------------------------------------ 4. trace level
     trace_check(ctx)
+
+
+# ---------------------------------------------------------------------------------- handler-level site table
+def _has_unknown(t):
+    if t[0] in ("unk", "bot"):
+        return t[1] if len(t) > 1 else "no value"
+    for x in t[1:]:
+        if isinstance(x, tuple) and x and isinstance(x[0], str):
+            w = _has_unknown(x)
+            if w:
+                return w
+    return None
+
+
+def sites_check(ctx):
+    """Tie T for the storage's path sites: the table the Coq obligation Gen_c06_sites_ok is about, re-read here to give a
+    readable account of what is unconfined, then the storage-level probe as failing-input search."""
+    from translate import t_c06sites
+    ctx.assumptions += [
+        "site table (translate/t_c06sites.py): syntactic provenance; attributes and internal functions are identified by NAME "
+        "(no aliasing through getattr / rebinding), _atomic_write/_makedirs_synced/_sync_directory are pinned by body hash, "
+        "os.scandir/os.listdir never return '', '.', '..' or a name with '/', tempfile appends no separator",
+    ]
+    bad, err = [], None
+    try:
+        calls, sites = t_c06sites.table(core.REPO)
+    except Exception as e:
+        calls, sites, err = [], [], "%s: %s" % (type(e).__name__, e)
+    for f, fn, sink, line, t in sites:
+        ctx.count("sites:%s" % sink.split(".")[-1])
+        ctx.case(("site", f, fn, sink, line), nontrivial=t[0] not in ("root",), sample=None)
+        w = _has_unknown(t)
+        if w:
+            bad.append("%s:%d %s %s(): %s" % (f, line, fn, sink, w))
+    for f, x, t in calls:
+        w = _has_unknown(t)
+        if w:
+            bad.append("argument %s of a call of %s: %s" % (x, f, w))
+    ctx.extra["c06_sites"] = dict(sites=len(sites), call_entries=len(calls), unconfined=bad[:20], error=err,
+                                  reviewed=sum(1 for s_ in sites if "reviewed" in repr(s_[4])))
+    ctx.obligation("sites:every-path-site-of-the-storage-has-a-confined-provenance", not bad and not err,
+                   err or "\n".join(bad[:20]))
+    # the application side: which string reaches which storage entry point (readable account of Gen_c06_app_sites_ok)
+    abad, aerr = [], None
+    try:
+        acalls, asites = t_c06sites.app_table(core.REPO)
+    except Exception as e:
+        acalls, asites, aerr = [], [], "%s: %s" % (type(e).__name__, e)
+    for f, fn, sink, line, t in asites:
+        ctx.count("appsites:%s" % sink)
+        ctx.case(("appsite", f, fn, sink, line), nontrivial=True)
+        w = _has_unknown(t)
+        if w and not sink.endswith(":token"):
+            abad.append("app/%s:%d %s %s: %s" % (f, line, fn, sink, w))
+    for f, x, t in acalls:
+        w = _has_unknown(t)
+        if w:
+            abad.append("app: argument %s of a call of %s: %s" % (x, f, w))
+    ctx.extra["c06_app_sites"] = dict(sites=len(asites), call_entries=len(acalls), unrouted=abad[:20], error=aerr)
+    ctx.obligation("sites:every-string-handed-to-a-storage-entry-point-is-routed-through-sanitize_path", not abad and not aerr,
+                   aerr or "\n".join(abad[:20]))
+    # the static web pages: httputils.serve_resource / _serve_traversable and radicale/web (account of Gen_c06_web_sites_ok)
+    wbad, werr = [], None
+    try:
+        wcalls, wsites = t_c06sites.web_table(core.REPO)
+    except Exception as e:
+        wcalls, wsites, werr = [], [], "%s: %s" % (type(e).__name__, e)
+    for f, fn, sink, line, t in wsites:
+        ctx.count("websites:%s" % sink)
+        ctx.case(("website", f, fn, sink, line), nontrivial=True)
+        w = _has_unknown(t)
+        if w:
+            wbad.append("%s:%d %s %s(): %s" % (f, line, fn, sink, w))
+    for f, x, t in wcalls:
+        w = _has_unknown(t)
+        if w:
+            wbad.append("web: argument %s of a call of %s: %s" % (x, f, w))
+    ctx.extra["c06_web_sites"] = dict(sites=len(wsites), call_entries=len(wcalls), unconfined=wbad[:20], error=werr)
+    ctx.obligation("sites:every-component-joined-onto-the-web-folder-is-literal-or-checked-unchanged", not wbad and not werr,
+                   werr or "\n".join(wbad[:20]))
+    web_probe(ctx)
+    # failing-input search at the storage API (public methods called directly with hostile strings)
+    base = tempfile.mkdtemp(prefix="rv-c06p-")
+    try:
+        spec, outp = os.path.join(base, "spec.json"), os.path.join(base, "out.json")
+        os.makedirs(os.path.join(base, "b"))
+        seed, n = ctx.rng.randrange(1 << 30), ctx.n(60, 600)
+        json.dump(dict(base=os.path.join(base, "b"), seed=seed, n=n), open(spec, "w"))
+        env = dict(os.environ, VERIF_REPO=core.REPO, PYTHONPATH=core.VERIF, PYTHONHASHSEED="0")
+        import subprocess
+        pr = subprocess.run([core.PY, os.path.join(core.VERIF, "vlib/drivers/c06_storage_probe.py"), spec, outp],
+                            stdout=subprocess.PIPE, stderr=subprocess.STDOUT, env=env, timeout=600)
+        if pr.returncode != 0 or not os.path.exists(outp):
+            ctx.obligation("sites:storage-probe-ran", False, pr.stdout.decode("utf-8", "replace")[-1500:])
+            return
+        res = json.load(open(outp))
+        ctx.count("probe:calls", res["calls"])
+        ctx.count("probe:refused", res["refused"])
+        ctx.extra["c06_probe"] = dict(calls=res["calls"], hostile=res["hostile"], refused=res["refused"], events=len(res["events"]))
+        for ev in res["events"][:1]:
+            if ev["kind"] == "outside":
+                what = "C06 storage probe: %s hands %r (outside the storage folder) to %s" % (ev["during"], ev["path"], ev["call"])
+            else:
+                what = "C06 storage probe: %s on a reserved / unsafe name: %s" % (ev["during"], ev["detail"])
+            ctx.violation(what, dict(function="storage-probe", seed=seed, n=n, event=ev,
+                                     note="replay: VERIF_REPO=<tree> PYTHONPATH=/verif python vlib/drivers/c06_storage_probe.py spec.json out.json "
+                                          "with spec {base: <empty dir>, seed, n}"))
+    finally:
+        shutil.rmtree(base, ignore_errors=True)
+
+
+def web_probe(ctx):
+    """GET/HEAD below /.web with encoded, doubly encoded and mixed segments against the real Application under an audit hook."""
+    import subprocess
+    base = tempfile.mkdtemp(prefix="rv-c06w-")
+    try:
+        spec, outp = os.path.join(base, "spec.json"), os.path.join(base, "out.json")
+        os.makedirs(os.path.join(base, "b"))
+        seed, n = ctx.rng.randrange(1 << 30), ctx.n(400, 4000)
+        json.dump(dict(base=os.path.join(base, "b"), seed=seed, n=n), open(spec, "w"))
+        env = dict(os.environ, VERIF_REPO=core.REPO, PYTHONPATH=core.VERIF, PYTHONHASHSEED="0")
+        pr = subprocess.run([core.PY, os.path.join(core.VERIF, "vlib/drivers/c06_web_probe.py"), spec, outp],
+                            stdout=subprocess.PIPE, stderr=subprocess.STDOUT, env=env, timeout=900)
+        if pr.returncode != 0 or not os.path.exists(outp):
+            ctx.obligation("sites:web-probe-ran", False, pr.stdout.decode("utf-8", "replace")[-1500:])
+            return
+        res = json.load(open(outp))
+        ctx.count("webprobe:requests", res["requests"])
+        for k, v in res["statuses"].items():
+            ctx.count("webprobe:status:%s" % k, v)
+        ctx.extra["c06_web_probe"] = dict(requests=res["requests"], statuses=res["statuses"], events=len(res["events"]))
+        for ev in res["events"][:1]:
+            ctx.violation("C06 web probe: %s %s (PATH_INFO as handed over by the WSGI server) answered %s: %s, outside the packaged web folder"
+                          % (ev["method"], ev["path"], ev["status"], ev["what"]),
+                          dict(function="web-probe", seed=seed, n=n, request=dict(method=ev["method"], path=ev["path"]), event=ev,
+                               note="replay: VERIF_REPO=<tree> PYTHONPATH=/verif python vlib/drivers/c06_web_probe.py spec.json out.json "
+                                    "with spec {base: <empty dir>, seed, n}; or send the request to the Application with web type internal"))
+    finally:
+        shutil.rmtree(base, ignore_errors=True)
 
 
 # ---------------------------------------------------------------------------------- trace-level check
